@@ -266,8 +266,10 @@ class Gate:
     def timeline(self, p, depth_summary=True):
         """-> list of (idx, 'W'|'V', role set, label) for one path"""
         out = []
+        top = p.events[0].fn.split("::{closure")[0] if p.events else None
         for e in p.events:
-            if e.depth != 0:
+            # the constructor's own statements and those of its closures (`a().and_then(|_| b())` runs b inside one)
+            if e.depth != 0 and not (top and e.fn.startswith(top + "::{closure")):
                 continue
             if e.kind == "assign":
                 fl = e.name
